@@ -72,3 +72,5 @@ SPEC = {'id': 'C11',
 
 SPEC['rule'] += (' Added after the seeded-change rounds: ' +
     'Decodes kept alive and run concurrently (results depend on the input alone); multi-label IDN domains around the 63-byte label limit; the Host header is compared after the AMP-cache rewrite; the size bound is applied to the decoded body, not to the encoded path.')
+
+SPEC['thorough_passes'] = 6  # the thorough tier runs the whole harness under this many consecutive seeds
